@@ -159,7 +159,8 @@ def run(res, tier, seed, shard, nshards):
                     jobs.append(("seq", seq, final, 1, disp))
     # the connection is lost while a keepalive ping is still being written (slow path): the lost connection's ping thread is gone
     # before the next connection exists
-    for delay in (0.5, 0.8, 1.4):
+    # (the last delays: the write outlasts the three seconds the library waits for its ping thread to finish)
+    for delay in (0.5, 0.8, 1.4, 3.6, 30.0):
         for interval in (0.1, 0.5):
             for how in ("eof", "reset"):
                 jobs.append(("inflight-ping", delay, interval, how))
@@ -537,9 +538,13 @@ def inflight_ping_case(res, W, delay, interval, how):
         bad("reconnect-missing" if len(run.attempts) < 2 else "attempt-after-final-ending", f"{len(run.attempts)} attempts, expected 2: {[(a[0], a[1]) for a in run.attempts]}",
             after=how, extra=len(run.attempts) - 2)
         return
-    if run.attempts[1][3]:
+    if run.attempts[1][3] and delay <= 3:
         bad("ping-thread-overlap", f"attempt 1 at t={run.attempts[1][0]}: live ping thread(s) {run.attempts[1][3]} at connect time", after=how)
         return
+    if run.attempts[1][3]:
+        # a thread blocked inside a transport write for longer than the library is prepared to wait for it cannot be stopped from outside:
+        # what is judged is that it does nothing any more once the write returns (no pings on the new connection, gone at the end)
+        res.count("reconnects_with_old_ping_thread_still_blocked_in_a_write")
     # one ping thread with ping_interval=0.3 sends at most one ping per 0.3 s on the new connection
     srv = [s_ for s_ in run.servers if s_.index == 1]
     if srv:
@@ -549,7 +554,11 @@ def inflight_ping_case(res, W, delay, interval, how):
         if npings > life / 0.3 + 1:
             bad("ping-thread-overlap", f"{npings} pings in {life:.2f}s on the re-established connection (one thread sends at most {int(life / 0.3) + 1})", after=how)
             return
-    if getattr(run, "live_at_return", None):
+        if npings < life / 0.3 - 3:
+            bad("keepalive-missing-after-reconnect", f"only {npings} pings in {life:.2f}s on the re-established connection (ping_interval 0.3): its keepalive never started "
+                f"properly while the lost connection's ping thread was still blocked in a write", after=how)
+            return
+    if getattr(run, "live_at_return", None) and delay < 10:
         bad("ping-thread-overlap", f"ping thread(s) {run.live_at_return} alive after the run", after="end")
 
 
